@@ -255,6 +255,10 @@ pub fn ctx_spec() -> CtxSpec {
     spec.fns.push(("m0".into(), FnSpec::Host(vec!["this-value".into()], Body::Const(Value::Int(0)))));
     spec.fns.push(("m1".into(), FnSpec::Host(vec!["this-value".into(), "pos-value".into()], Body::Const(Value::Int(1)))));
     spec.fns.push(("m2".into(), FnSpec::Host(vec!["this-value".into(), "pos-value".into(), "pos-value".into()], Body::Const(Value::Int(2)))));
+    // names that start with an underscore (legal identifiers that look a little like operator names)
+    spec.fns.push(("_id".into(), FnSpec::Host(vec!["pos-value".into()], Body::First)));
+    spec.fns.push(("_sum".into(), FnSpec::Host(vec!["pos-value".into(), "pos-value".into()], Body::Const(Value::Int(2)))));
+    spec.fns.push(("_plus".into(), FnSpec::Host(vec!["this-value".into(), "pos-value".into()], Body::Const(Value::Int(3)))));
     // a receiver parameter that is not the first parameter
     spec.fns.push(("pt".into(), FnSpec::Host(vec!["pos-value".into(), "this-value".into()], Body::Const(Value::Int(5)))));
     spec.fns.push(("ptp".into(), FnSpec::Host(vec!["pos-value".into(), "this-value".into(), "pos-value".into()], Body::Const(Value::Int(6)))));
@@ -426,6 +430,17 @@ pub fn generate(tier: Tier, rng: &mut Rng) -> Vec<Case> {
                 push(format!("t(1).m{k}({})", args.join(", ")), None, usize::MAX, vec!["arity-mismatch"], &mut out);
                 push(format!("m{k}({})", args.join(", ")), None, usize::MAX, vec!["arity-mismatch"], &mut out);
             }
+        }
+    }
+    for src in ["_sum(t(1), t(2))", "t(1)._plus(t(2))", "_id(_id(_id(_id(t(7)))))", "_id(t(1)) + _sum(t(2), _id(t(3)))", "_plus(t(1), t(2))", "t(1)._id()", "[t(1)].map(x, _id(x))"] {
+        push(src.to_string(), None, usize::MAX, vec!["underscore-name"], &mut out);
+    }
+    // relations and arithmetic over operands that turn out not to be comparable / compatible: each
+    // operand is still evaluated once, left then right
+    for op in ["<", "<=", ">", ">=", "==", "!=", "+", "-", "in"] {
+        for (a, b) in [("t(1)", "t('a')"), ("t('a')", "t(1)"), ("t(1.5)", "t(0.0 / 0.0)"), ("t([1])", "t([2])"), ("t(null)", "t(1)"), ("t(1)", "h1(t('s'))"), ("t(b'a')", "t(b'a')"), ("t(1)", "t(2u)")] {
+            push(format!("{a} {op} {b}"), None, usize::MAX, vec!["unordered-operands"], &mut out);
+            push(format!("[t(0), t(5)].exists(x, {a} {op} h2(x, {b}))"), None, usize::MAX, vec!["unordered-operands"], &mut out);
         }
     }
     // receiver parameter in second position: both styles, every arity; the model decides
